@@ -29,7 +29,7 @@ import facts
 import c19ops
 
 PROP = "C19"
-MODS = ["EmbitModel.Props.C19", "EmbitModel.Props.C19Facts"]
+MODS = ["EmbitModel.Props.C19", "EmbitModel.Props.C19Facts", "EmbitModel.Props.C19X"]
 ZYGOTE = os.path.join(os.path.dirname(os.path.dirname(os.path.abspath(__file__))), "c19zygote.py")
 FINDING_SITES = "D31"
 
@@ -794,6 +794,81 @@ class Abstraction:
         return line, "ok " + " ".join(expect), len(mops)
 
 
+def parse_memo_keys():
+    """rows of `Gen.Alias.memoKeys` (site name -> the stored key copies the argument's contents?)"""
+    src = open(os.path.join(facts.GEN_DIR, "AliasFacts.lean")).read()
+    m = re.search(r"def memoKeys : List \(String × Bool\) := \[(.*?)\n\]", src, re.S)
+    return dict((n, b == "true") for (n, b) in re.findall(r'\("([^"]*)", (true|false)\)', m.group(1))) if m else {}
+
+
+class AliasAbstraction:
+    """the part of a history the model of Model/HeapAlias.lean speaks about (keyed memos while the CALLER edits its own
+    argument lists in place, op `sighash_taproot` with "reuse"), as a `memo.trace` request, and the staleness observed
+    on the real code. Methods 0/1: Transaction.hash_amounts / hash_script_pubkeys, 2/3: the same of PSBTView; their key
+    kinds are the extracted ones."""
+    NAMES = ["transaction.Transaction.hash_amounts[_hash_amounts]",
+             "transaction.Transaction.hash_script_pubkeys[_hash_script_pubkeys]",
+             "psbtview.PSBTView.hash_amounts[_hash_amounts]",
+             "psbtview.PSBTView.hash_script_pubkeys[_hash_script_pubkeys]"]
+
+    def __init__(self, memo_keys):
+        # a memo that is not keyed at all is not this model's business: such histories are not abstracted
+        self.ok = all(n in memo_keys for n in self.NAMES)
+        self.kinds = ["c" if memo_keys.get(n) else "a" for n in self.NAMES]
+
+    def build(self, ops, live):
+        if not self.ok:
+            return None
+        mops, expect = [], []
+        obj, held, isview, noquery = {}, {}, set(), set()
+        contents = {}
+        narg = 0
+
+        def cell(x):
+            return contents.setdefault(json.dumps(x), 1 + len(contents))
+        for k, o in enumerate(ops):
+            l, n = live[k], o["op"]
+            if l["status"] != "ok":
+                if n == "sighash_taproot":
+                    noquery.add(o["obj"])    # the call may or may not have replaced / edited the held lists
+                if n in ("tx_default", "tx_new", "view_of"):
+                    return None
+                continue
+            if n in ("psbt_sighash", "tx_set_locktime", "psbt_sign") and o.get("obj") is not None:
+                noquery.add(o["obj"])
+                continue
+            if n in ("tx_default", "tx_new", "view_of"):
+                obj[o["dst"]] = len(obj)
+                held.pop(o["dst"], None)
+                noquery.discard(o["dst"])
+                (isview.add if n == "view_of" else isview.discard)(o["dst"])
+                mops.append("O"); expect.append("-")
+            elif n in ("tx_append_vin", "tx_append_vout") and o["obj"] in obj:
+                mops.append("M %d" % obj[o["obj"]]); expect.append("-")
+            elif n == "sighash_taproot" and o["obj"] in obj and o["obj"] not in noquery:
+                s = o["obj"]
+                cv, cs = cell(["v", o["values"]]), cell(["s", o["spks"]])
+                if o.get("reuse") and s in held:
+                    ks, kv = held[s]
+                    mops += ["E %d %d" % (ks, cs), "E %d %d" % (kv, cv)]; expect += ["-", "-"]
+                else:
+                    ks, kv = narg, narg + 1
+                    narg += 2
+                    held[s] = (ks, kv)
+                    mops += ["N %d" % cs, "N %d" % cv]; expect += ["-", "-"]
+                if (o["flag"] & 0x80) or not (0 <= o["idx"] < len(o["values"])):
+                    continue                 # ANYONECANPAY: the two memo methods are not called
+                if l.get("stale") is None:
+                    noquery.add(s)
+                    continue
+                b = 2 if s in isview else 0
+                mops.append("T %d %d %d %d %d" % (obj[s], b, kv, b + 1, ks)); expect.append("s%d" % int(bool(l["stale"])))
+        if not any(m.startswith("T") for m in mops):
+            return None
+        line = "memo.trace %d %s %d %s" % (len(self.kinds), " ".join(self.kinds), len(mops), " ".join(mops))
+        return line, "ok " + " ".join(expect), len(mops)
+
+
 # ------------------------------------------------------------------------------------------------ the check
 
 def classifier_d31(rec):
@@ -844,6 +919,13 @@ def examine(c, zyg, ops, kind, abstraction, shrink_budget=80):
             line, exp, n = b
             c.tally("model-ops", n)
             c.expect(line, exp, {"history": ops, "kind": kind}, proven=False, op="heap.trace")
+        alias = getattr(abstraction, "alias", None)
+        b = alias.build(ops, ans["live"]) if alias is not None else None
+        if b is not None:
+            line, exp, n = b
+            c.tally("memo-trace-ops", n)
+            c.tally("memo-trace-edits-in-place", line.count(" E ") // 2)
+            c.expect(line, exp, {"history": ops, "kind": kind}, proven=False, op="memo.trace")
     return fs
 
 
@@ -915,6 +997,11 @@ def run(tier, seed):
     else:
         check_sites(c, witnesses)
     abstraction = Abstraction(parse_sites()) if c.driver_ok else None
+    if abstraction is not None:
+        mk = parse_memo_keys()
+        abstraction.alias = AliasAbstraction(mk)
+        c.expect("memo.keys", "ok " + (" ".join("%s:%s" % (n.encode().hex(), "c" if b else "a") for n, b in mk.items()) or "-"),
+                 {"what": "the driver was built from this run's key kinds"}, proven=False)
     zyg = Zygote()
     try:
         for name, ops in directed():
@@ -978,6 +1065,11 @@ def replay(path):
     b = Abstraction(sites).build(ops, ans["live"], ans["fresh"])
     if b:
         print("model request:", b[0][:600])
+        print("impl pattern :", b[1])
+        print("model        :", run_driver([b[0]])[0])
+    b = AliasAbstraction(parse_memo_keys()).build(ops, ans["live"])
+    if b:
+        print("memo request :", b[0][:600])
         print("impl pattern :", b[1])
         print("model        :", run_driver([b[0]])[0])
     return 0
